@@ -16,7 +16,7 @@ RULE = ("histories of ~18 steps over 1-3 proxies and 1-5 concurrently open strea
         "{0,5} x ITER_STREAM_LINGER {0,3} x both server types. distinct = (history hash, step); non-trivial = the step concerns an open stream")
 ASSUMPTIONS = ["the virtual clock starts at 1e9 (a linger stamp of 0 means 'none' in Pyro's code)", "after every client-side disconnect / oneway close the harness waits for the server-side event (10 s watchdog, expiry = inconclusive)",
                "a stream whose deadline has passed may be forgotten at any time until the next explicit housekeeping step, after which it must be gone"]
-REQUIRED_REACH = ["shards_with_daemon_annotations_hook", "relayed_streams_ok", "reconnect_fetches_ok", "cross_thread_closes_ok", "connected_socket_streams_ok", "histories_with_failing_disconnect_hook", "items_ok", "stopiteration_ok", "generator_exception_ok", "forgotten_ok", "reconnect_continues", "linger_expired", "lifetime_expired", "table_checked", "streaming_disabled_ok", "racing_reconnects", "server_ended_connections", "housekeeping_during_fetch", "histories_under_one_correlation_id", "concurrent_streams_checked", "slow_item_streams_checked", "natural_housekeeping_ok"]
+REQUIRED_REACH = ["racing_reconnects_followed_to_the_end", "shards_with_daemon_annotations_hook", "relayed_streams_ok", "reconnect_fetches_ok", "cross_thread_closes_ok", "connected_socket_streams_ok", "histories_with_failing_disconnect_hook", "items_ok", "stopiteration_ok", "generator_exception_ok", "forgotten_ok", "reconnect_continues", "linger_expired", "lifetime_expired", "table_checked", "streaming_disabled_ok", "racing_reconnects", "server_ended_connections", "housekeeping_during_fetch", "histories_under_one_correlation_id", "concurrent_streams_checked", "slow_item_streams_checked", "natural_housekeeping_ok"]
 SHARD_TIMEOUT = {"quick": 240, "thorough": 3000}
 
 
@@ -865,6 +865,70 @@ def reconnect_fetch_phase(fx, vclock, rec, r, cfg, n):
     d.streaming_responses.clear()
 
 
+def racing_reconnect_phase(fx, vclock, rec, r, cfg, n):
+    """the schedule of the 'racing-reconnect' history step, followed to its end: a proxy drops its connection, reconnects and fetches AT ONCE,
+    while the worker of the old connection has not handled the disconnect yet (delay point at the entry of the daemon's disconnect
+    handling). The fetch re-adopted the stream: it belongs to the new connection, whatever the late disconnect handling does. After more
+    than the linger period and a housekeeping pass the client - connected all the time - still gets the rest of its stream."""
+    d = fx.daemon
+    if getattr(fx, "gate", None) is None:
+        return
+    for k in range(n):
+        key = "rr-%d" % r.randrange(10 ** 9)
+        nitems = r.choice([4, 5])
+        SPECS[key] = ([[key, i] for i in range(nitems)], False, r.choice(["gen", "iterobj", "listiter"]))
+        pay = {"racing_reconnect": True, "cfg": cfg}
+        rec.case(("racing-reconnect-phase", nitems, cfg["servertype"], k), nontrivial=True, sample=pay if k == 0 else None)
+        p = fx.proxy("src", serializer=cfg["serializer"], timeout=10.0)
+        bad = None
+        it = None
+        try:
+            it = p.open(key)
+            got = [list(next(it))]
+            old_serial = max(s for s, ref in list(d.conn_refs.items()) if ref() is not None)
+            fx.gate["event"].clear()
+            fx.gate["serial"] = old_serial
+            try:
+                p._pyroRelease()
+                p._pyroBind()
+                got.append(list(next(it)))
+            finally:
+                fx.gate["serial"] = None
+                fx.gate["event"].set()
+            if not fx.wait_until(lambda: any(e[2] == old_serial for e in d.evlog.of("disconnect")), 10.0):
+                rec.inconc("racing-reconnect phase: server-side disconnect not observed within the watchdog")
+                continue
+            real_time.sleep(0.002)
+            vclock.now += cfg["linger"] + 1.0
+            d._housekeeping()
+            try:
+                for x in it:
+                    got.append(list(x))
+                end = "stop"
+            except Exception as x:
+                end = repr(x)
+            if got != [[key, i] for i in range(nitems)] or end != "stop":
+                bad = "the client received %r and then %s; the source has %d items" % (got, end, nitems)
+        except Exception as x:
+            rec.inconc("racing-reconnect phase failed in the harness: %r" % (x,))
+            continue
+        finally:
+            try:
+                if it is not None:
+                    it.close()
+                p._pyroRelease()
+            except Exception:
+                pass
+            SPECS.pop(key, None)
+        if bad:
+            rec.violation("returning-client-fetch-disturbed", "linger %s: a proxy reconnected and fetched before the old connection's disconnect was handled, stayed connected, and after the "
+                          "linger period and a housekeeping pass: %s" % (cfg["linger"], bad), pay)
+            return
+        rec.count("racing_reconnects_followed_to_the_end")
+    fx.wait_until(lambda: fx.live_connection_count() == 0, 5.0)
+    d.streaming_responses.clear()
+
+
 def relay_phase(fx, rec, r, cfg, n):
     """a relay: the served method obtains an item stream from ANOTHER Pyro object (its last outgoing call returns a remote iterator) and
     returns a generator of its own over it. The caller's stream is the relay's generator: its items, in order, to the end - and the
@@ -985,6 +1049,8 @@ def run_shard(shard, rec):
         if shard["streaming"] and shard["linger"] and not shard["lifetime"]:
             reconnect_fetch_phase(fx, vclock, rec, r, cfg, 3 if rec.tier == "quick" else 20)
             rec.count("reconnect_fetch_shards")
+            if shard["servertype"] == "thread":
+                racing_reconnect_phase(fx, vclock, rec, r, cfg, 3 if rec.tier == "quick" else 20)
         if shard["streaming"] and shard["linger"] and not shard["lifetime"]:
             slow_item_phase(fx, rec, r, cfg, 2 if rec.tier == "quick" else 12)
         for kind, text in fixture.take_faults():
@@ -1030,6 +1096,14 @@ def replay(payload, rec):
         fx.register(make_service(P), "src")
         if payload.get("natural_housekeeping"):
             natural_housekeeping_phase(fx, vclock, rec, gen.rng(0, "replay"), cfg, 10)
+            return
+        if payload.get("reconnect_fetch") and "steps" not in payload:
+            reconnect_fetch_phase(fx, vclock, rec, gen.rng(0, "replay"), cfg, 20)
+            return
+        if payload.get("racing_reconnect"):
+            if cfg["servertype"] == "thread":
+                install_gate(fx)
+            racing_reconnect_phase(fx, vclock, rec, gen.rng(0, "replay"), cfg, 10)
             return
         if payload.get("slow_item"):
             slow_item_phase(fx, rec, gen.rng(0, "replay"), cfg, 12)
